@@ -31,6 +31,9 @@ pub struct Ctx {
     pub out_stack: [u64; 16],    // 0x1D8
     pub scratch_rsp: u64,        // 0x258
     pub r10: u64,                // 0x260 static chain register as set by the caller
+    pub wide: u64,               // 0x268 != 0: the CPU has AVX, ymm0-7 carry 256-bit arguments
+    pub ymm_hi: [[u64; 2]; 8],   // 0x270 bits 128..255 of ymm0-7 as set by the caller
+    pub out_ymm0_hi: [u64; 2],   // 0x2F0 bits 128..255 of ymm0 after the return
 }
 
 #[repr(C)]
@@ -50,6 +53,9 @@ pub struct FakeRec {
     pub hits: u64,           // 0x1A0
     pub r10: u64,            // 0x1A8 static chain register seen on entry
     pub rflags: u64,         // 0x1B0 flags seen on entry
+    pub wide: u64,           // 0x1B8
+    pub ymm_hi: [[u64; 2]; 8], // 0x1C0 bits 128..255 of ymm0-7 seen on entry
+    pub ret_ymm0_hi: [u64; 2], // 0x240 upper half of a 256-bit return value
 }
 
 #[no_mangle]
@@ -105,6 +111,17 @@ probe_call:
     movdqu xmm5, [r11 + 0x140]
     movdqu xmm6, [r11 + 0x150]
     movdqu xmm7, [r11 + 0x160]
+    cmp qword ptr [r11 + 0x268], 0
+    je 8f
+    vinsertf128 ymm0, ymm0, [r11 + 0x270], 1
+    vinsertf128 ymm1, ymm1, [r11 + 0x280], 1
+    vinsertf128 ymm2, ymm2, [r11 + 0x290], 1
+    vinsertf128 ymm3, ymm3, [r11 + 0x2A0], 1
+    vinsertf128 ymm4, ymm4, [r11 + 0x2B0], 1
+    vinsertf128 ymm5, ymm5, [r11 + 0x2C0], 1
+    vinsertf128 ymm6, ymm6, [r11 + 0x2D0], 1
+    vinsertf128 ymm7, ymm7, [r11 + 0x2E0], 1
+8:
     mov rbx, [r11 + 0x38]
     mov rbp, [r11 + 0x40]
     mov r12, [r11 + 0x48]
@@ -126,6 +143,11 @@ probe_call_ret_site:
     mov [r11 + 0x178], rdx
     movdqu [r11 + 0x180], xmm0
     movdqu [r11 + 0x190], xmm1
+    cmp qword ptr [r11 + 0x268], 0
+    je 9f
+    vextractf128 [r11 + 0x2F0], ymm0, 1
+    vzeroupper
+9:
     mov [r11 + 0x1A0], rbx
     mov [r11 + 0x1A8], rbp
     mov [r11 + 0x1B0], r12
@@ -205,11 +227,26 @@ probe_fake:
     movdqu [r11 + 0x140], xmm5
     movdqu [r11 + 0x150], xmm6
     movdqu [r11 + 0x160], xmm7
+    cmp qword ptr [r11 + 0x1B8], 0
+    je 10f
+    vextractf128 [r11 + 0x1C0], ymm0, 1
+    vextractf128 [r11 + 0x1D0], ymm1, 1
+    vextractf128 [r11 + 0x1E0], ymm2, 1
+    vextractf128 [r11 + 0x1F0], ymm3, 1
+    vextractf128 [r11 + 0x200], ymm4, 1
+    vextractf128 [r11 + 0x210], ymm5, 1
+    vextractf128 [r11 + 0x220], ymm6, 1
+    vextractf128 [r11 + 0x230], ymm7, 1
+10:
     inc qword ptr [r11 + 0x1A0]
     mov rax, [r11 + 0x170]
     mov rdx, [r11 + 0x178]
     movdqu xmm0, [r11 + 0x180]
     movdqu xmm1, [r11 + 0x190]
+    cmp qword ptr [r11 + 0x1B8], 0
+    je 11f
+    vinsertf128 ymm0, ymm0, [r11 + 0x240], 1
+11:
     ret
 
     .p2align 4
@@ -286,7 +323,22 @@ pub fn ctx_from(r: &RegFile, target: u64) -> Box<Ctx> {
     }
     // (derived, so that earlier replay files keep their meaning)
     c.r10 = (r.args[0] ^ r.callee[0]).rotate_left(17) ^ 0x5A5A_1010_A5A5_0101;
+    c.wide = wide() as u64;
+    for i in 0..8 {
+        c.ymm_hi[i] = ymm_hi_of(c.xmm[i], i as u64);
+    }
     c
+}
+
+/// 256-bit vector arguments exist on this machine (ymm0-7 carry `__m256` arguments at full width)
+pub fn wide() -> bool {
+    std::arch::is_x86_feature_detected!("avx")
+}
+
+/// upper half of a 256-bit register, derived from its generated lower half (so that earlier
+/// replay files keep their meaning); never zero
+pub fn ymm_hi_of(lo: [u64; 2], i: u64) -> [u64; 2] {
+    [lo[0].rotate_left(29) ^ 0xC3C3_0000_3C3C_1111u64.wrapping_add(i), (lo[1] ^ lo[0]).rotate_left(7) | 1]
 }
 
 pub fn rec_from(r: &RegFile) -> Box<FakeRec> {
@@ -295,5 +347,7 @@ pub fn rec_from(r: &RegFile) -> Box<FakeRec> {
     f.ret_rdx = r.ret_rdx;
     f.ret_xmm0 = [r.ret_xmm0.0, r.ret_xmm0.1];
     f.ret_xmm1 = [r.ret_xmm1.0, r.ret_xmm1.1];
+    f.wide = wide() as u64;
+    f.ret_ymm0_hi = ymm_hi_of(f.ret_xmm0, 8);
     f
 }
